@@ -5,10 +5,10 @@ SomeItems == IF Deep THEN Items ELSE {"//goverter:name A", "// text goverter:nam
 AllMarkers == ConvMarkers \cup VarMarkers \cup NonMarkers
 G1 == {<<m>> : m \in AllMarkers} \cup {<<m, a>> : m \in AllMarkers, a \in SomeItems} \cup {<<a, m>> : m \in AllMarkers, a \in SomeItems}
        \cup (IF Deep THEN {<<a, m, b>> : m \in {"// goverter:converter", "//goverter:variables"}, a \in SomeItems, b \in SomeItems} ELSE {})
-S1 == [kind : Kinds, attach : Attachments, group : G1, mgroup : {<<>>}]
-S2 == [kind : {"type-single", "var-block"}, attach : {"doc"}, group : {<<"// goverter:converter">>, <<"// goverter:variables">>}, mgroup : MethodGroups]
+S1 == [kind : Kinds, attach : Attachments, group : G1, mgroup : {<<>>}, mattach : {"doc"}]
+S2 == [kind : {"type-single", "var-block"}, attach : {"doc"}, group : {<<"// goverter:converter">>, <<"// goverter:variables">>}, mgroup : MethodGroups, mattach : {"doc", "trailing", "detached"}]
 Scen == S1 \cup S2
-Rec(d) == [kind |-> d.kind, attach |-> d.attach, group |-> d.group, mgroup |-> d.mgroup, expect |-> Expect(d)]
+Rec(d) == [kind |-> d.kind, attach |-> d.attach, group |-> d.group, mgroup |-> d.mgroup, mattach |-> d.mattach, expect |-> Expect(d)]
 ASSUME ndJsonSerialize(ScenOut, SetToSeq({Rec(d) : d \in Scen}))
 ASSUME PrintT(<<"exported", Cardinality(Scen)>>)
 VARIABLE x
